@@ -17,7 +17,7 @@ EXPLANATION = (
     "pieces in spec order (decided under C03/C07 T-SPEC and C02/C06 coverage; their results are referenced). Injectivity is the "
     "mathematical consequence of the length-prefixed format and is stated, not re-proved.")
 ASSUMPTIONS = ["rustc type checking / MIR construction are correct", "u64::to_le_bytes, slice::Iter and array::IntoIter behave as documented"]
-FLOORS = {"R15.1": 1, "R15.2": 13}
+FLOORS = {"R15.1": 1, "R15.2": 13, "R15.3": 12}
 
 FORWARDERS = ("digest::mac::Mac::update", "digest::Update::update", "digest::digest::Digest::update", "aws_lc_rs::hmac::Context::update",
               "aws_lc_rs::digest::Context::update", "libsodium_rs::crypto_generichash::State::update", "ed25519_dalek::verifying::stream::StreamVerifier::update",
@@ -174,6 +174,21 @@ def check_writers(ctx):
     if n == 0:
         ctx.add("R15.2", "C15/writer/none", False, "no WriteBytes impls found")
 
+def check_call_sites(ctx):
+    """R15.3 (shared with C03 R03.1): at every token PAE call site the pieces are the specification's pieces in the specification's
+    order (header = version ‖ encoding suffix ‖ purpose as one piece, then nonce / message, footer, implicit assertion)."""
+    import c03
+    class Scratch:
+        def __init__(s): s.findings = []; s.world = ctx.world; s.crates = ctx.crates; s.analysed = {"functions": 0, "paths": 0, "call_sites": 0}; s.notes = []; s.tier = ctx.tier; s.facts_dir = ctx.facts_dir
+        def add(s, rule, k, ok, detail="", site=None, facts=None): s.findings.append((rule, k, ok, detail, site))
+        def sample(s, x): pass
+    sc = Scratch()
+    c03.run(sc)
+    for (rule, k, ok, detail, site) in sc.findings:
+        if rule == "R03.1":
+            ctx.add("R15.3", "C15/pae-call-site/" + k.split("/", 2)[-1], ok, detail, site)
+
 def run(ctx):
     check_pae(ctx)
     check_writers(ctx)
+    check_call_sites(ctx)
